@@ -490,6 +490,27 @@ func (fl *flattener) stmt(s ast.Stmt) ([]ast.Stmt, bool) {
 				}
 			}
 		}
+		// `x op= h(args)`: the helper's result goes through a synthetic local
+		if len(x.Rhs) == 1 && len(x.Lhs) == 1 && x.Tok != token.DEFINE && x.Tok != token.ASSIGN {
+			if c, ok := ast.Unparen(x.Rhs[0]).(*ast.CallExpr); ok {
+				if h := fl.helperOf(c); fl.usable(h) && fl.generalOK(h) && h.Decl.Type.Results != nil && len(h.Decl.Type.Results.List) == 1 && len(h.Decl.Type.Results.List[0].Names) <= 0 && len(ownReturns(h)) > 0 {
+					if fl.dry {
+						fl.inlineGeneral(h, c, nil, token.ASSIGN)
+						return nil, false
+					}
+					if tv, ok := fl.info.Types[c]; ok && tv.Type != nil {
+						v := types.NewVar(c.Pos(), fl.pkg, "_result_of_"+h.Decl.Name.Name, tv.Type)
+						def := &ast.Ident{Name: v.Name(), NamePos: c.Pos()}
+						fl.info.Defs[def] = v
+						use := &ast.Ident{Name: v.Name(), NamePos: c.Pos()}
+						fl.info.Uses[use] = v
+						fl.info.Types[use] = types.TypeAndValue{Type: tv.Type}
+						pre := fl.inlineGeneral(h, c, []ast.Expr{def}, token.DEFINE)
+						return append(pre, &ast.AssignStmt{Lhs: x.Lhs, TokPos: x.TokPos, Tok: x.Tok, Rhs: []ast.Expr{use}}), true
+					}
+				}
+			}
+		}
 		if e, ch := fl.exprs(x.Rhs); ch {
 			return []ast.Stmt{&ast.AssignStmt{Lhs: x.Lhs, TokPos: x.TokPos, Tok: x.Tok, Rhs: e}}, true
 		}
